@@ -292,6 +292,7 @@ func isStringType(t types.Type) bool {
 func (st *c07state) progress(scope map[*ssa.Function]bool) {
 	c, r := st.c, st.c.R
 	sums := st.stringSummaries(scope)
+	nextReader := c.P.FuncOpt("(*Conn).NextReader")
 	if os.Getenv("WSVERIF_DEBUG") != "" {
 		for k := range sums {
 			fmt.Fprintf(os.Stderr, "summary: %s result %d <= param %d\n", shortFn(k.f), k.k, k.j)
@@ -409,7 +410,7 @@ func (st *c07state) progress(scope map[*ssa.Function]bool) {
 			lits := x.PrefixLits()
 			for i := len(pre) - 1; i >= 0; i-- {
 				ev := &pre[i]
-				if ev.Kind == core.EvCall && (ev.Static == rd.advance || ev.Static == rd.read) {
+				if ev.Kind == core.EvCall && (ev.Static == rd.advance || ev.Static == rd.read || (ev.Static == nextReader && nextReader != nil)) {
 					e := errOf(x, ev.Result)
 					for _, l := range lits {
 						if l.Pos && isEqNil(l.T, is(e)) {
@@ -516,6 +517,31 @@ func (st *c07state) progress(scope map[*ssa.Function]bool) {
 			}
 		})
 		r.Check("C07.progress", shortFn(rd.advance), "success-consumes-header", rd.advance.Pos(), ok, why)
+	}
+	// NextReader returns a nil error only after a successful advanceFrame (so a loop around it consumes input too)
+	if nextReader != nil {
+		ok, why := true, "a nil error implies a successful advanceFrame"
+		n := 0
+		c.explore("C07.progress", nextReader, core.Opts{Unroll: 0}, func(p *core.Path) {
+			if p.End != core.EndReturn || len(p.Results) != 3 || !p.Results[2].IsNil() {
+				return
+			}
+			n++
+			good := false
+			for i := range p.Events {
+				ev := &p.Events[i]
+				if callsStatic(ev, rd.advance) {
+					e := errOf(p.X, ev.Result)
+					if hasLit(p, len(p.Lits), true, func(t *core.Term) bool { return isEqNil(t, is(e)) }) {
+						good = true
+					}
+				}
+			}
+			if !good {
+				ok, why = false, "NextReader can report success without a frame having been read"
+			}
+		})
+		r.Check("C07.progress", shortFn(nextReader), "success-consumes-frame", nextReader.Pos(), ok && n > 0, why)
 	}
 	r.Floor("C07.progress", 20)
 	_ = nLoops
